@@ -154,7 +154,7 @@ inductive POp where
   | getitem (k : Int) | setitem (k : Int) (v : Val) | delitem (k : Int) | len | reverse | slice
   -- dict
   | dset (k v : Val) | dget (k : Val) | ddel (k : Val) | dpop (k : Val) | dpopd (k d : Val) | dgetd (k d : Val)
-  | dcontains (k : Val) | dkeys | dvalues | dclear | dsetdefault (k v : Val) | dpopitem
+  | dcontains (k : Val) | dcopy | dclear | dsetdefault (k v : Val) | dpopitem
   -- namespace
   | nset (a : Nat) (v : Val) | nget (a : Nat) | ndel (a : Nat)
   -- value
@@ -229,8 +229,7 @@ def dictOp (h : Heap) (a : Nat) (kv : List (Val × Val)) : POp → Heap × Res
   | .dgetd k d => (h, .val ((lookup kv k).getD d))
   | .dcontains k => (h, .val (.bool (lookup kv k).isSome))
   | .len => (h, .val (.int kv.length))
-  | .dkeys => (h, .vals (kv.map (·.1)))
-  | .dvalues => (h, .vals (kv.map (·.2)))
+  | .dcopy => (h, .vals (kv.flatMap fun p => [p.1, p.2]))       -- a plain copy: k1, v1, k2, v2, …
   | .dclear => (upd h a (.dct []), .val .none)
   | .dsetdefault k v => match lookup kv k with
     | some w => (h, .val w)
